@@ -30,8 +30,16 @@ def run_worker(binary, args, timeout=3600, heavy=False, start=0):
     return viols, summary, crash
 
 
-def add_crash(V, crash, args, what):
+def add_crash(V, crash, args, what, binary=None):
     a = crash.get("abort") or {}
+    if a.get("abort") == "timeout" and binary and a.get("case") is not None and len(args) == 5:
+        # the per-application watchdog fired: a loaded machine or a parser that does not terminate? the case is repeated alone
+        v2, s2, c2 = run_worker(binary, list(args) + [a["case"]], timeout=600)
+        a2 = (c2 or {}).get("abort") or {}
+        if c2 and (a2.get("abort") == "timeout" or c2["timed_out"]):
+            V.violation("hang in %s" % (a.get("what") or "?").split(" ")[0], "a parser or serializer did not come back within the watchdog (twice, the second time alone on the machine's share): unbounded time on a well-formed element",
+                        {"harness_args": [str(x) for x in args], "case": a.get("case"), "doc": a.get("doc"), "stage": a.get("what")})
+            return
     if crash["timed_out"] or a.get("abort") == "timeout":
         V.inconc("watchdog in %s case %s (%s)" % (what, a.get("case"), a.get("what")))
         return
